@@ -101,6 +101,19 @@ def gen_buzzer() -> str:
     return "\n".join(lines)
 
 
+def gen_types() -> str:
+    """`_BUILTIN_CALL_RETURN_TYPES` of the parser: the type `_infer_expr_type` gives a call of a builtin (C02)"""
+    import importlib
+    pa = importlib.import_module("Reduino.transpile.parser")
+    table = pa._BUILTIN_CALL_RETURN_TYPES
+    if not all(isinstance(k, str) and isinstance(v, str) for k, v in table.items()):
+        raise ValueError("_BUILTIN_CALL_RETURN_TYPES is not a str -> str table")
+    lines = ["namespace Reduino.Gen", ""]
+    lines.append(f"def builtinReturn : List (String × String) := {llist(sorted(table.items()), lambda kv: '(' + lstr(kv[0]) + ', ' + lstr(kv[1]) + ')', per_line=4)}")
+    lines += ["", "end Reduino.Gen", ""]
+    return "\n".join(lines)
+
+
 def probe_bindings(max_shapes=None):
     """black-box table of what the transpiler does with every call shape Python accepts (C08):
     [(cls, meth, params, [(npos, kws, outcome, unseen)])] — outcome 'reject' | 'ok'; `unseen` = provided parameters whose
@@ -168,7 +181,7 @@ def gen_bind() -> str:
     return "\n".join(lines)
 
 
-GENERATORS = {"Host": gen_host, "Pio": gen_pio, "Buzzer": gen_buzzer, "Bind": gen_bind}
+GENERATORS = {"Host": gen_host, "Pio": gen_pio, "Buzzer": gen_buzzer, "Types": gen_types, "Bind": gen_bind}
 # generators that are slow (they probe the transpiler) run only for the checks that need them, and in setup
 NEEDS = {"Bind": {"C08"}}
 
